@@ -138,6 +138,9 @@ def _hand_specs():
         'SUMMARY OF RESULTS||Well depth': depth,
         'OPERATING AND MAINTENANCE COSTS (M$/yr)||Total operating and maintenance costs': total_oam,
         'SUMMARY OF RESULTS||Average Annual Geothermal Heat Production': dh_geo,
+        'SURFACE EQUIPMENT SIMULATION RESULTS||Initial pumping power/net installed power':
+            lambda s, e: [float(np.asarray(s['wellbores']['PumpingPower'].value, dtype=float)[0]) /
+                          float(np.asarray(s['surfaceplant']['NetElectricityProduced'].value, dtype=float)[0]) * 100.0],
         'SUMMARY OF RESULTS||Total Avoided Carbon Emissions': lambda s, e: [_v(s, 'economics', 'CarbonThatWouldHaveBeenProducedTotal') *
                                                                             (0.45359237e-6 if e['unit'] == 'kilotonne' else 1.0)] if e['unit'] in ('kilotonne', 'pound') else [],
     }
@@ -229,6 +232,11 @@ def table_specs(s):
         pp, pi = wb['PumpingPowerProd'].value, wb['PumpingPowerInj'].value
         if hasattr(pp, '__len__') and hasattr(pi, '__len__'):
             specs['RESERVOIR POWER REQUIRED PROFILES'] = (L, [yr, at(series(wb['PumpingPowerProd'])), at(series(wb['PumpingPowerInj'])), at(pump)])
+    if ec['DoSDACGTCalculations'].value and s.get('sdacgteconomics'):
+        sd = s['sdacgteconomics']
+        gs = lambda name: (lambda i: float(np.asarray(sd[name].value, dtype=float)[i]))
+        specs['S-DAC-GT PROFILE'] = (L, [yr, gs('CarbonExtractedAnnually'), gs('S_DAC_GTCummCarbonExtracted'), gs('S_DAC_GTAnnualCost'),
+                                         gs('S_DAC_GTCummCashFlow'), gs('CummCostPerTonne')])
     if ec['DoAddOnCalculations'].value and s.get('addeconomics'):
         specs['EXTENDED ECONOMIC PROFILE'] = (cy + L, [yr])
     return specs, (enduse, plant)
